@@ -190,9 +190,9 @@ theorem seekFwd_spec (c : SstCfg) (hc : c.GoodButSeek) (key : Bytes) (blocks : L
     (hne : ∀ b ∈ blocks, b ≠ []) (hs : SortedE blocks.flatten) :
     seekFwd c key blocks = blocks.flatten.dropWhile (fun e => klt e.1 key) ∨
     (c.seekFallsThrough = false ∧ seekFwd c key blocks = [] ∧ ∀ e ∈ blocks.flatten, e.1 ≠ key) := by
-  obtain ⟨so, nb, ts, bf, br, sv, bp, vc⟩ := c
-  simp only [SstCfg.GoodButSeek, SstCfg.good, SstCfg.mk.injEq] at hc
-  obtain ⟨rfl, -, rfl, rfl, rfl, rfl, rfl, rfl⟩ := hc
+  obtain ⟨so, nb, ts, bf, br, sv, bp, vc, cg, ve⟩ := c
+  simp only [SstCfg.GoodButSeek] at hc
+  obtain ⟨rfl, rfl, rfl, rfl, rfl, rfl⟩ := hc
   induction blocks with
   | nil => left; simp [seekFwd]
   | cons b rest ih =>
